@@ -1,21 +1,113 @@
 (* C10 — Material cards become compositions with the same nuclides and amounts.
-   Only restatements; proofs are in C10/Proofs.v. *)
-From Coq Require Import List NArith Bool String Ascii Reals.
-From T4V Require Import Base.Str Base.Scalar C10.Model C10.Proofs.
+   Only restatements; proofs are in C10/Proofs*.v.  The functions named here
+   (data_split, material_head, get_materials, convert_card, convert_all, scan,
+   block_for, construct, composition_lines, ...) are those of C10/Model.v that
+   the correspondence ties execute against the Python code; C10/Spec.v holds
+   the abstract cards and the periodic table. *)
+From Coq Require Import List NArith ZArith Bool String Ascii Reals PrimFloat.
+From T4V Require Import Base.Str Base.Scalar C10.Model C10.ProofsStr C10.Spec C10.ProofsHead
+  C10.ProofsCard C10.ProofsNum C10.ProofsDeck C10.ProofsPipe.
 Import ListNotations.
 Open Scope string_scope.
 
-(* element symbol and mass number come from the ZAID, for every Z in 1..118 and
-   every three-digit mass number *)
-Theorem C10_zaid_split : forall z a : N, (1 <= z <= 118)%N -> (a <= 999)%N ->
-  convert_isotope (zaid_of z a) = Ok (z, a) /\
-  contains_char "."%char (zaid_of z a) = false /\ contains_char "="%char (zaid_of z a) = false.
+(* ------------------------------------------------------------------------ *)
+(* which data cards are material cards                                       *)
+(* ------------------------------------------------------------------------ *)
+
+(* blanks, m or M, a non-empty number, then anything that does not go on with a
+   digit or a star: a material card with that number (leading zeros allowed)
+   and the blank-separated words of the rest as entries *)
+Theorem C10_material_card_recognised : forall (ws : string) (c : ascii) (ds p : string),
+  all_chars is_ws ws = true -> (c = "m" \/ c = "M")%char ->
+  ds <> "" -> all_digits ds = true -> stops digit_or_star p = true ->
+  material_head (ws ++ String c (ds ++ p)) = Ok (Some (parse_digits ds 0%N, split_ws p)).
+Proof. exact material_card_recognised. Qed.
+Print Assumptions C10_material_card_recognised.
+
+(* ... and nothing else is: exactly the m<n> cards, in either case *)
+Theorem C10_material_card_shape : forall (txt : string) (n : N) (toks : list string),
+  material_head txt = Ok (Some (n, toks)) ->
+  exists ws c ds p,
+    txt = ws ++ String c (ds ++ p) /\ all_chars is_ws ws = true /\ (c = "m" \/ c = "M")%char /\
+    ds <> "" /\ all_digits ds = true /\ stops digit_or_star p = true /\
+    n = parse_digits ds 0%N /\ toks = split_ws p.
+Proof. exact material_card_shape. Qed.
+Print Assumptions C10_material_card_shape.
+
+(* a card whose name has other letters (mt, mx, mode, mpn, mgopt, imp, tr ...),
+   a star in front, or something else than a digit after the m is skipped
+   without error *)
+Theorem C10_other_cards_ignored : forall (ws stars letters rest : string),
+  all_chars is_ws ws = true -> all_chars is_star stars = true ->
+  letters <> "" -> all_chars is_alpha letters = true -> stops is_alpha rest = true ->
+  (stars <> "" \/ lower letters <> "m" \/ (rest <> "" /\ stops is_digit rest = true)) ->
+  material_head (ws ++ stars ++ letters ++ rest) = Ok None.
+Proof. exact other_cards_ignored. Qed.
+Print Assumptions C10_other_cards_ignored.
+
+Example C10_heads :
+  material_head "m5 1001.70c 1 nlib=70c" = Ok (Some (5%N, ["1001.70c"; "1"; "nlib=70c"])) /\
+  material_head " M05 1001 1 " = Ok (Some (5%N, ["1001"; "1"])) /\
+  material_head "mt5 lwtr.01t" = Ok None /\ material_head "mx5:n j 8016" = Ok None /\
+  material_head "mode n" = Ok None /\ material_head "mpn5 0 8016" = Ok None /\
+  material_head "mgopt f 4" = Ok None /\ material_head "*m5 1001 1" = Ok None /\
+  material_head "m5* 1001 1" = Ok None /\ material_head "m 5 1001 1" = Ok None /\
+  material_head "imp:n 1 1 0" = Ok None /\ material_head "*tr5 0 0 0" = Ok None /\
+  material_head "m" = Err EValue /\ material_head "5 m" = Err EAttribute.
+Proof. vm_compute. repeat split. Qed.
+
+(* a whole data block: exactly the material cards, in order, each with the
+   words of its entries — whatever other cards stand between them *)
+Theorem C10_material_cards_recognised : forall cards : list dcard,
+  Forall wf_dcard cards -> NoDup (map m_num (mcards cards)) ->
+  get_materials (map render_dcard cards) =
+  Ok (map (fun m => (m_num m, render (m_items m))) (mcards cards)).
+Proof. exact material_cards_recognised. Qed.
+Print Assumptions C10_material_cards_recognised.
+
+(* ------------------------------------------------------------------------ *)
+(* elements and ZAIDs                                                        *)
+(* ------------------------------------------------------------------------ *)
+
+(* the two enums of the code against the periodic table of C10/Spec.v (118
+   symbols written period by period): finite sweep over Z = 1..118 *)
+Theorem C10_element_table : forall z : N, (1 <= z <= 118)%N ->
+  atomic_value (dec z) = Some z /\ element_name z = Some (spec_symbol z).
+Proof. exact element_table. Qed.
+Print Assumptions C10_element_table.
+
+Example C10_symbols :
+  map spec_symbol [1; 2; 8; 26; 57; 71; 72; 92; 94; 103; 104; 118]%N =
+  ["H"; "HE"; "O"; "FE"; "LA"; "LU"; "HF"; "U"; "PU"; "LR"; "RF"; "OG"] /\
+  List.length periodic_table = 118%nat.
+Proof. vm_compute. split; reflexivity. Qed.
+
+(* no other number names an element: Z = 0 and Z > 118 (any size) are
+   rejected, with AttributeError *)
+Theorem C10_atomic_number_range :
+  (forall z v : N, atomic_value (dec z) = Some v -> (1 <= z <= 118)%N /\ v = z) /\
+  (forall (lead : nat) (z a : N), (z = 0 \/ 118 < z)%N -> (a <= 999)%N ->
+     convert_isotope (zaid_of lead z a) = Err EAttribute).
+Proof. split; [exact atomic_value_range|exact zaid_out_of_range]. Qed.
+Print Assumptions C10_atomic_number_range.
+
+(* element and mass number come from the ZAID, for every Z in 1..118, every
+   three-digit mass number and any number of zeros in front *)
+Theorem C10_zaid_split : forall (lead : nat) (z a : N), (1 <= z <= 118)%N -> (a <= 999)%N ->
+  convert_isotope (zaid_of lead z a) = Ok (z, dec a) /\
+  contains_char "."%char (zaid_of lead z a) = false /\
+  contains_char "="%char (zaid_of lead z a) = false.
 Proof. exact zaid_split. Qed.
 Print Assumptions C10_zaid_split.
 
-(* exactly the card's nuclides, in order; suffixes and keyword entries ignored;
-   000 = natural element; fractions = absolute spellings; the flag says whether
-   the entries were positive (atom fractions) *)
+(* ------------------------------------------------------------------------ *)
+(* one card                                                                  *)
+(* ------------------------------------------------------------------------ *)
+
+(* exactly the card's nuclides, in order; suffixes and keyword entries (in any
+   position between the pairs, any number of them) ignored; 000 = natural
+   element; fractions = absolute spellings; the flag says whether the entries
+   were positive (atom fractions).  Nothing requires the nuclides to differ. *)
 Theorem C10_card_converted : forall (items : list item) (neg : bool),
   Forall wf_item items -> Forall (fun n => nneg n = neg) (nuclides items) ->
   convert_card (render items) =
@@ -27,12 +119,49 @@ Print Assumptions C10_card_converted.
 Theorem C10_mixed_signs_rejected : forall items : list item,
   Forall wf_item items ->
   (exists n1 n2, In n1 (nuclides items) /\ In n2 (nuclides items) /\ nneg n1 <> nneg n2) ->
-  exists e, convert_card (render items) = Err e.
+  convert_card (render items) = Err EMixedSigns.
 Proof. exact mixed_signs_rejected. Qed.
 Print Assumptions C10_mixed_signs_rejected.
 
-(* atom density: concentrations sum to the cell density and are proportional to
-   the atom fractions *)
+(* a nuclide listed twice (same Z and A, possibly other suffixes) keeps both
+   entries at their places, each with its own fraction *)
+Theorem C10_repeated_nuclide : forall (items : list item) (neg : bool) out flag (i j : nat) (ni nj : nuclide),
+  Forall wf_item items -> Forall (fun n => nneg n = neg) (nuclides items) ->
+  convert_card (render items) = Ok (out, flag) ->
+  nth_error (nuclides items) i = Some ni -> nth_error (nuclides items) j = Some nj ->
+  nz ni = nz nj -> na ni = na nj ->
+  List.length out = List.length (nuclides items) /\
+  nth_error out i = Some (spec_name ni, nfrac ni) /\
+  nth_error out j = Some (spec_name ni, nfrac nj).
+Proof. exact repeated_nuclide. Qed.
+Print Assumptions C10_repeated_nuclide.
+
+(* non-vacuity: suffixes .70c/.80c, keywords in front, between and after the
+   pairs, A = 000, leading zeros, a repeated nuclide *)
+Definition ex_u5 := mkNuc 92 235 0 (Some "70c") false "0.05".
+Definition ex_u5' := mkNuc 92 235 0 (Some "80c") false "0.01".
+Definition ex_o := mkNuc 8 0 0 None false "2".
+Definition ex_h := mkNuc 1 1 2 None false "6.25-2".
+Definition ex_items := [IKey "gas=1"; INuc ex_u5; IKey "nlib=70c"; IKey "plib=04p"; INuc ex_o;
+                        INuc ex_u5'; INuc ex_h; IKey "estep=10"].
+
+Lemma ex_items_wf : Forall wf_item ex_items.
+Proof. repeat constructor; cbn; try discriminate; try reflexivity. Qed.
+
+Example C10_example :
+  Forall wf_item ex_items /\
+  render ex_items = ["gas=1"; "92235.70c"; "0.05"; "nlib=70c"; "plib=04p"; "8000"; "2";
+                     "92235.80c"; "0.01"; "001001"; "6.25-2"; "estep=10"] /\
+  convert_card (render ex_items) =
+    Ok ([("U235", "0.05"); ("O-NAT", "2"); ("U235", "0.01"); ("H1", "6.25-2")], Some true) /\
+  convert_card ["1001"; "nlib=70c"; "1"] = Err EIndex /\
+  convert_card ["1001"; "1"; "8016"; "-2"] = Err EMixedSigns /\
+  convert_card ["119001"; "1"] = Err EAttribute /\ convert_card ["92"; "1"] = Err EValue.
+Proof. split; [exact ex_items_wf|]. vm_compute. repeat split. Qed.
+
+(* ------------------------------------------------------------------------ *)
+(* amounts: rescale_fractions over the reals                                 *)
+(* ------------------------------------------------------------------------ *)
 Theorem C10_rescale_sum : forall (fracs : list R) (rho : R),
   ssum RS fracs <> 0%R -> ssum RS (rescale RS fracs rho) = rho.
 Proof. exact rescale_sum. Qed.
@@ -44,27 +173,254 @@ Theorem C10_rescale_proportional : forall (fracs : list R) (rho : R) (i j : nat)
 Proof. exact rescale_proportional. Qed.
 Print Assumptions C10_rescale_proportional.
 
-(* mass density (negative cell density): the card's absolute values, NB_ATOM
-   exactly when the entries are positive *)
-Theorem C10_block_negative_density : forall names atom (fracs : list R) (rho : R),
-  (rho < 0)%R -> block_of RS names atom fracs rho = BDensity atom names.
-Proof. exact block_negative_density. Qed.
-Print Assumptions C10_block_negative_density.
+(* entry by entry, by position: two entries of the same nuclide do not share
+   anything *)
+Theorem C10_rescale_entry : forall (fracs : list R) (rho : R) (i : nat),
+  (i < List.length fracs)%nat ->
+  nth_error (rescale RS fracs rho) i = Some (nth i fracs 0 * rho / ssum RS fracs)%R.
+Proof. exact rescale_entry. Qed.
+Print Assumptions C10_rescale_entry.
 
-Theorem C10_block_atom_density : forall names (fracs : list R) (rho : R),
-  (0 <= rho)%R -> block_of RS names true fracs rho = BPointWise (combine names (rescale RS fracs rho)).
-Proof. exact block_atom_density. Qed.
-Print Assumptions C10_block_atom_density.
+(* ------------------------------------------------------------------------ *)
+(* whole decks: data cards + final cells -> blocks -> lines                  *)
+(* (for every scalar structure; norm = normalize_float, fval = its float     *)
+(* value, rend = the rendering of a computed amount, all three arbitrary)    *)
+(* ------------------------------------------------------------------------ *)
 
-(* non-vacuity: a concrete card with a suffix, a keyword and a natural element *)
-Example C10_example :
-  let u := mkNuc 92 235 (Some "70c") false "0.05" in
-  let o := mkNuc 8 0 None false "2" in
-  let items := [INuc u; IKey "nlib=70c"; INuc o] in
-  Forall wf_item items /\
-  convert_card (render items) = Ok ([("U235", "0.05"); ("O-NAT", "2")], Some true).
+(* every card is converted, used by a cell or not: one card mixing signs
+   anywhere stops the run, whatever the cells *)
+Theorem C10_unused_card_still_checked :
+  forall (T : Type) (S : Scalar T) norm fval rend (cards : list dcard) (cells : list (cell (T:=T))),
+  wf_cards cards ->
+  (exists m n1 n2, In m (mcards cards) /\ In n1 (nuclides (m_items m)) /\
+                   In n2 (nuclides (m_items m)) /\ nneg n1 <> nneg n2) ->
+  composition_lines S norm fval rend (map render_dcard cards) cells = Err EMixedSigns.
+Proof. intros T S norm fval rend. exact (unused_card_still_checked S norm fval rend). Qed.
+Print Assumptions C10_unused_card_still_checked.
+
+(* the blocks: for each material card in card order, one block per distinct
+   density STRING of the cells that use it — importance > 0, universe 0, no
+   FILL, material number equal to the card's — in order of first use, named
+   m<number>_<normalised density>; materials nobody uses that way (unused,
+   used only by dead, filled or universe cells) give nothing *)
+Theorem C10_one_block_per_material_density :
+  forall (T : Type) (S : Scalar T) norm fval rend (cards : list dcard) (cells : list (cell (T:=T))) lines,
+  wf_deck cards ->
+  composition_lines S norm fval rend (map render_dcard cards) cells = Ok lines ->
+  exists d, lines = composition_lines_of rend d /\
+    map (block_name (T:=T)) (all_blocks d) =
+    flat_map (fun m => map (name_for norm m) (dedup [] (used S (m_num m) cells))) (mcards cards).
+Proof. intros T S norm fval rend. exact (one_block_per_material_density S norm fval rend). Qed.
+Print Assumptions C10_one_block_per_material_density.
+
+Example C10_used_unfold : forall (T : Type) (S : Scalar T) (key : N) (cells : list (cell (T:=T))),
+  used S key cells =
+  flat_map (fun c => if negb (sleb S (c_imp c) (s0 S)) && (c_univ c =? 0)%Z && negb (c_filled c)
+                        && (c_mat c =? Z.of_N key)%Z
+                     then match c_dens c with Some d => [d] | None => [] end else []) cells.
+Proof. reflexivity. Qed.
+
+(* what "one per string, in order of first use" means *)
+Theorem C10_block_order : forall (l : list string),
+  NoDup (dedup [] l) /\ (forall x, In x (dedup [] l) <-> In x l) /\
+  (forall x, dedup [] (l ++ [x])%list = (dedup [] l ++ (if mem x l then [] else [x]))%list).
 Proof.
-  cbv zeta. split.
-  - repeat constructor; cbn; try discriminate; try reflexivity.
-  - vm_compute. reflexivity.
+  intros l. split; [apply dedup_NoDup|]. split.
+  - intros x. rewrite dedup_In. simpl. tauto.
+  - intros x. rewrite dedup_snoc. reflexivity.
 Qed.
+Print Assumptions C10_block_order.
+
+(* every written block comes from a card and a density string some live cell
+   uses it at *)
+Theorem C10_block_origin :
+  forall (T : Type) (S : Scalar T) norm fval rend (cards : list dcard) (cells : list (cell (T:=T))) lines,
+  wf_deck cards ->
+  composition_lines S norm fval rend (map render_dcard cards) cells = Ok lines ->
+  exists d, lines = composition_lines_of rend d /\
+    forall b, In b (all_blocks d) ->
+      exists m dn fd, In m (mcards cards) /\ In dn (used S (m_num m) cells) /\ fval dn = Some fd /\
+        block_for S norm fval (m_num m) (card_entries m) (card_flag m) dn fd = Ok b.
+Proof. intros T S norm fval rend. exact (block_origin S norm fval rend). Qed.
+Print Assumptions C10_block_origin.
+
+(* the text: opening lines, the count, the blocks, the void composition m0,
+   the closing lines; the lines that open a block are exactly the headers of
+   the blocks, then the header of m0 *)
+Theorem C10_text_shape : forall (T : Type) rend (d : list (N * list (block (T:=T)))),
+  composition_lines_of rend d =
+    (["" ; "COMPOSITION"; dec (N.of_nat (List.length (all_blocks d)) + 1)]
+     ++ flat_map (block_lines rend) (all_blocks d)
+     ++ ["POINT_WISE 300 m0 1"; "  HE4 1E-30"; ""; "END_COMPOSITION"])%list /\
+  filter is_header (composition_lines_of rend d) =
+    (map (header_line rend) (all_blocks d) ++ ["POINT_WISE 300 m0 1"])%list.
+Proof. intros T rend. exact (text_shape rend). Qed.
+Print Assumptions C10_text_shape.
+
+(* the COMPOSITION count line equals the number of blocks written, m0 included *)
+Theorem C10_block_count : forall (T : Type) rend (d : list (N * list (block (T:=T)))),
+  nth 2 (composition_lines_of rend d) "" =
+  dec (N.of_nat (List.length (filter is_header (composition_lines_of rend d)))).
+Proof. intros T rend. exact (block_count rend). Qed.
+Print Assumptions C10_block_count.
+
+(* a block: header ending with the declared count = the number of amounts,
+   then one line "  NAME AMOUNT" per amount in order (one line of two blanks
+   when there is none) *)
+Theorem C10_block_lines : forall (T : Type) rend (b : block (T:=T)),
+  exists head,
+    header_line rend b = head ++ " " ++ dec (N.of_nat (List.length (body_items rend b))) /\
+    block_lines rend b = header_line rend b ::
+      match body_items rend b with
+      | [] => ["  "]
+      | l => map (fun e => "  " ++ fst e ++ " " ++ snd e) l
+      end.
+Proof. intros T rend. exact (block_lines_shape rend). Qed.
+Print Assumptions C10_block_lines.
+
+(* mass density (negative cell density): DENSITY block, the absolute density,
+   NB_ATOM exactly when the card's entries are positive, the declared count =
+   number of the card's nuclides, then the card's nuclides in order with the
+   card's absolute values as written *)
+Theorem C10_mass_density_block : forall norm fval rend (m : mcard) (d : string) (fd : R),
+  (fd < 0)%R ->
+  exists b, block_for RS norm fval (m_num m) (card_entries m) (card_flag m) d fd = Ok b /\
+    block_name b = name_for norm m d /\
+    block_lines rend b =
+      ("DENSITY 300 " ++ name_for norm m d ++ " " ++ str_fabs (norm d) ++ " "
+       ++ (match card_flag m with Some true => "NB_ATOM" | _ => "" end) ++ " "
+       ++ dec (N.of_nat (List.length (nuclides (m_items m)))))
+      :: match nuclides (m_items m) with
+         | [] => ["  "]
+         | ns => map (fun n => nuclide_line n (nfrac n)) ns
+         end.
+Proof.
+  intros norm fval rend m d fd H. apply mass_density_lines. cbn [sltb s0 RS]. now apply Rltb_true.
+Qed.
+Print Assumptions C10_mass_density_block.
+
+(* atom density, card with atom fractions: POINT_WISE block, count, the card's
+   nuclides in order, amounts f_j * rho / sum(f) — they sum to the cell
+   density *)
+Theorem C10_atom_density_block : forall norm fval rend (m : mcard) (d : string) (fd : R) (fs : list R),
+  (0 <= fd)%R -> card_flag m = Some true ->
+  fractions_of fval (nuclides (m_items m)) fs -> ssum RS fs <> 0%R ->
+  exists b, block_for RS norm fval (m_num m) (card_entries m) (card_flag m) d fd = Ok b /\
+    block_name b = name_for norm m d /\
+    block_lines rend b =
+      ("POINT_WISE 300 " ++ name_for norm m d ++ " "
+       ++ dec (N.of_nat (List.length (nuclides (m_items m)))))
+      :: amount_lines rend (name_for norm m d) 0 (nuclides (m_items m)) (rescale RS fs fd) /\
+    ssum RS (rescale RS fs fd) = fd /\
+    List.length (rescale RS fs fd) = List.length (nuclides (m_items m)).
+Proof.
+  intros norm fval rend m d fd fs Hfd Hflag Hfs Hsum.
+  destruct (atom_density_lines RS norm fval rend m d fd fs) as (b & H1 & H2 & H3); auto.
+  - cbn [sltb s0 RS]. now apply Rltb_false.
+  - cbn [seqb s0 RS]. now apply Reqb_false.
+  - exists b. repeat split; auto.
+    + now apply rescale_sum.
+    + rewrite rescale_length. symmetry. clear - Hfs. induction Hfs; simpl; congruence.
+Qed.
+Print Assumptions C10_atom_density_block.
+
+Example C10_amount_lines_unfold : forall (T : Type) rend name j n ns (x : T) xs,
+  amount_lines rend name j (n :: ns) (x :: xs) =
+  ("  " ++ spec_name n ++ " " ++ rend name j x) :: amount_lines rend name (Datatypes.S j) ns xs.
+Proof. reflexivity. Qed.
+
+(* atom density, card WITHOUT atom fractions (mass fractions, or no nuclide):
+   what the code does — a POINT_WISE block declaring 0 nuclides and one line of
+   two blanks (the code also prints a warning, not modelled) *)
+Theorem C10_mass_fractions_with_atom_density : forall norm fval rend (m : mcard) (d : string) (fd : R),
+  (0 <= fd)%R -> card_flag m <> Some true ->
+  exists b, block_for RS norm fval (m_num m) (card_entries m) (card_flag m) d fd = Ok b /\
+    block_name b = name_for norm m d /\
+    block_lines rend b = ["POINT_WISE 300 " ++ name_for norm m d ++ " 0"; "  "].
+Proof.
+  intros norm fval rend m d fd H. apply mass_fractions_atom_density_lines.
+  cbn [sltb s0 RS]. now apply Rltb_false.
+Qed.
+Print Assumptions C10_mass_fractions_with_atom_density.
+
+(* hence "the emitted composition lists exactly the card's nuclides" fails for
+   a well-formed card with weight fractions used at an atom density (finding
+   mass_fractions_atom_density_empty_block): H-1 0.11, O-16 0.89 by weight at
+   0.1 atoms/b-cm gives a block without any nuclide *)
+Definition ex_water : mcard :=
+  mkCard 5 false 0 false false
+    [INuc (mkNuc 1 1 0 None true "0.11"); INuc (mkNuc 8 16 0 None true "0.89")].
+
+Lemma ex_water_wf : wf_mcard ex_water.
+Proof. split; [repeat constructor; cbn; try discriminate; try reflexivity|reflexivity]. Qed.
+
+Theorem C10_mass_fractions_with_atom_density_refuted :
+  exists (m : mcard) (d : string) (fd : R),
+    wf_mcard m /\ one_sign m /\ List.length (nuclides (m_items m)) = 2%nat /\ (0 < fd)%R /\
+    forall fval rend,
+    exists b, block_for RS (fun s => s) fval (m_num m) (card_entries m) (card_flag m) d fd = Ok b /\
+              block_lines rend b = ["POINT_WISE 300 m5_0.1 0"; "  "].
+Proof.
+  exists ex_water, "0.1", (1 / 10)%R. split; [exact ex_water_wf|]. split.
+  { exists true. repeat constructor. }
+  split; [reflexivity|]. split; [apply Rdiv_lt_0_compat; [apply Rlt_0_1|apply (IZR_lt 0 10); reflexivity]|].
+  intros fval rend.
+  destruct (C10_mass_fractions_with_atom_density (fun s => s) fval rend ex_water "0.1" (1 / 10)%R)
+    as (b & H1 & _ & H3).
+  - left. apply Rdiv_lt_0_compat; [apply Rlt_0_1|apply (IZR_lt 0 10); reflexivity].
+  - discriminate.
+  - exists b. split; [exact H1|exact H3].
+Qed.
+Print Assumptions C10_mass_fractions_with_atom_density_refuted.
+
+(* ------------------------------------------------------------------------ *)
+(* non-vacuity of the deck theorems: a deck evaluated at binary64             *)
+(* ------------------------------------------------------------------------ *)
+Definition ex_fuel : mcard := mkCard 6 true 1 true true ex_items.
+Definition ex_cards : list dcard :=
+  [DOther "mode n"; DMat ex_water; DOther "mt5 lwtr.01t"; DMat ex_fuel; DOther "mx6:n j 8016.70c"].
+
+Lemma ex_cards_wf : wf_deck ex_cards.
+Proof.
+  split; [split|].
+  - constructor; [vm_compute; reflexivity|]. constructor; [exact ex_water_wf|].
+    constructor; [vm_compute; reflexivity|].
+    constructor; [split; [exact ex_items_wf|reflexivity]|].
+    constructor; [vm_compute; reflexivity|constructor].
+  - repeat constructor; cbn; intuition discriminate.
+  - repeat constructor; [exists true|exists false]; repeat constructor.
+Qed.
+
+Definition ex_cells : list (cell (T:=float)) :=
+  [ mkCell 1%float 0 false 5 (Some "-1.0");      (* live *)
+    mkCell 1%float 0 false 6 (Some "-10.5");
+    mkCell 0%float 0 false 6 (Some "-19.1");     (* importance 0 *)
+    mkCell 1%float 0 true 6 (Some "-7");         (* filled *)
+    mkCell 1%float 3 false 6 (Some "-8");        (* in a universe *)
+    mkCell 1%float 0 false 5 (Some "0.1");       (* weight fractions, atom density *)
+    mkCell 1%float 0 false 6 (Some "-10.5");     (* same string again *)
+    mkCell 1%float 0 false 0 None;               (* void *)
+    mkCell 1%float 0 false 6 (Some "2.0") ].
+Definition ex_fval (s : string) : option float :=
+  if String.eqb s "-1.0" then Some (-1)%float else if String.eqb s "-10.5" then Some (-10.5)%float
+  else if String.eqb s "0.1" then Some 0.1%float else if String.eqb s "2.0" then Some 2%float
+  else if String.eqb s "0.05" then Some 0.05%float else if String.eqb s "2" then Some 2%float
+  else if String.eqb s "0.01" then Some 0.01%float else if String.eqb s "6.25-2" then Some 0.0625%float
+  else None.
+Definition ex_rend (name : string) (j : nat) (x : float) : string :=
+  "<" ++ dec (N.of_nat j) ++ ">".
+
+Example C10_deck_example :
+  wf_deck ex_cards /\
+  map render_dcard ex_cards =
+    ["mode n"; "m5 1001 -0.11 8016 -0.89"; "mt5 lwtr.01t";
+     " M06 gas=1 92235.70c 0.05 nlib=70c plib=04p 8000 2 92235.80c 0.01 001001 6.25-2 estep=10 ";
+     "mx6:n j 8016.70c"] /\
+  composition_lines FS (fun s => s) ex_fval ex_rend (map render_dcard ex_cards) ex_cells =
+  Ok [""; "COMPOSITION"; "5";
+      "DENSITY 300 m5_-1.0 1.0  2"; "  H1 0.11"; "  O16 0.89";
+      "POINT_WISE 300 m5_0.1 0"; "  ";
+      "DENSITY 300 m6_-10.5 10.5 NB_ATOM 4"; "  U235 0.05"; "  O-NAT 2"; "  U235 0.01"; "  H1 6.25-2";
+      "POINT_WISE 300 m6_2.0 4"; "  U235 <0>"; "  O-NAT <1>"; "  U235 <2>"; "  H1 <3>";
+      "POINT_WISE 300 m0 1"; "  HE4 1E-30"; ""; "END_COMPOSITION"].
+Proof. split; [exact ex_cards_wf|]. vm_compute. split; reflexivity. Qed.
